@@ -337,6 +337,8 @@ class NcpEndpoint:
         self.dec = Decoder()
         self.connected = True  # False before the first RST in engines that model power-up
         self.silent = False  # fault: NCP stops doing anything
+        self.silent_mode = None  # with silent: None = says nothing at all; "nak" = rejects every DATA frame (NAK, never an ACK); "naklast" = nothing, except a NAK for the 5th copy of a frame
+        self._silent_seen = {}
         self.rst_delay = 0.0  # time the NCP takes to process an RST
         self._init_state()
         # history (survives resets)
@@ -428,6 +430,14 @@ class NcpEndpoint:
     # -- receive side
     def feed(self, data: bytes):
         if self.silent:
+            if self.silent_mode is not None:
+                # an NCP that has stopped ACKNOWLEDGING without going quiet: it no longer accepts anything
+                for fr in self.dec.feed(data):
+                    if fr[0] == "data":
+                        k = (fr[1], fr[4])
+                        self._silent_seen[k] = self._silent_seen.get(k, 0) + 1
+                        if self.silent_mode == "nak" or self._silent_seen[k] >= 5:
+                            self.emit(f_nak(self.frm_rx), "nak")
             return
         for fr in self.dec.feed(data):
             self._frame(fr)
